@@ -12,7 +12,8 @@ PROPERTY = "C01"
 RULE = ("Generated test programs (setUp before/after the upcall, test method, tearDown before/after the upcall, "
         "nested cleanups registered anywhere, expectThat/assertThat mismatches, force_failure, skip decorators; every "
         "stage may raise failure / error / skip / expected failure / unexpected success / MultipleExceptions / "
-        "KeyboardInterrupt / SystemExit / a custom BaseException) run against 7 result flavours (2.6-style, 2.7-style, "
+        "KeyboardInterrupt / SystemExit / a custom BaseException; skips with an empty reason, exceptions whose bool() is "
+        "False, expectFailure around a callable raising an error or a skip) run against 7 result flavours (2.6-style, 2.7-style, "
         "extended, Twisted-style, testtools.TestResult, StreamResult behind ExtendedToStreamDecorator, result=None); "
         "oracle: the event log is exactly startTest, one outcome, stopTest; a non-Exception error is reported as an "
         "error, all later stages still run (execution log equals the reference interpreter's) and the very exception "
